@@ -22,6 +22,38 @@ from optsim.same import same
 from optsim import tstate as TS
 from optsim.scenario import OPS, OP_NAMES, Scn, clone, outcome, same_outcome, describe_outcome
 from optsim.tape import Tape, derive_seed
+import warnings
+
+# one more engine -> user-code call site, owned by this check only (it swaps process-global warning state, which the
+# multi-task checks must not do): the engine WARNS when asked for the treespec of a leaf, and the user's warning hook
+# (warnings.showwarning, or a filter that turns the warning into an exception) runs inside the engine call
+_WARN_LEAF = U.Leaf(424242)
+
+
+def _show_hook(message, category, filename, lineno, file=None, line=None):
+    U._h('showwarning')
+
+
+def _from_collection_leaf(s):
+    with warnings.catch_warnings():
+        warnings.simplefilter('always')
+        warnings.showwarning = _show_hook
+        return optree.treespec_from_collection(_WARN_LEAF, **s.kw)
+
+
+def _from_collection_leaf_error_filter(s):
+    with warnings.catch_warnings():
+        warnings.simplefilter('error')
+        try:
+            return optree.treespec_from_collection(_WARN_LEAF, **s.kw)
+        except UserWarning:
+            return 'UserWarning raised by the filter'
+
+
+OPS = dict(OPS)
+OPS['from_collection_leaf'] = _from_collection_leaf
+OPS['from_collection_leaf_error_filter'] = _from_collection_leaf_error_filter
+OP_NAMES = tuple(OPS)
 
 PROPERTY = 'C15'
 LEVEL = 'fault_enumeration'
